@@ -49,6 +49,44 @@ Theorem C07_unknown_until_defined : forall (V : Type) k (v : V) m id,
 Proof. intros V k v m id H Hne. now rewrite lookup_insert_neq. Qed.
 Print Assumptions C07_unknown_until_defined.
 
+(* ---- packet level (imports kept local) ---- *)
+From NF Require Import UnknownFacts.
+
+(* V9, the whole packet: if after n flowsets that decode (leaving the caches s1: their templates
+   are learned) the next flowset is data for an id in neither map of s1, then the packet -- whatever
+   follows in it -- is reported as ONE Error element whose remaining bytes are the buffer from
+   this packet on, no record of it is reported, and the caches are exactly s1: the offending
+   flowset and everything after it change nothing. *)
+Theorem C07_v9_packet : forall puf allow s x h r0 n m l r s1 id len r1 r2,
+  allow 9%N = true -> firstn 2 x = enc 2 9 ->
+  parse_layout v9_header_layout (skipn 2 x) = Ok h r0 ->
+  N.to_nat (get_field v9_header_layout h "count") = (n + S m)%nat ->
+  parse_flowsets puf n (st9 s) r0 = (Ok l r, s1) ->
+  u_s 2 r = Ok id r1 -> u_s 2 r1 = Ok len r2 ->
+  id <> v9_template_id -> id <> v9_options_template_id ->
+  lookup id (v9_o s1) = None -> lookup id (v9_t s1) = None ->
+  parse_one puf allow s x = StErr (PErr (NPartial 9 (skipn 2 x) EError) x) {| st9 := s1; stx := stx s |}.
+Proof. exact parse_one_v9_unknown. Qed.
+Print Assumptions C07_v9_packet.
+
+From NF Require Import Interp IxStream IxStreamFacts LayoutFacts.
+
+(* IPFIX, the whole message: any list of conformant sets (Spec/IxStream.v), then a data set for an
+   id that is in neither IPFIX map after those sets, then anything up to the message length: the
+   message is reported with exactly the sets before the offending one, the caches are what those
+   sets made them, and the bytes after the message are the rest -- the unknown set and everything
+   behind it inside the message are omitted, silently *)
+Theorem C07_ipfix_message : forall puf s h l xs s' tail rest id len r1 r2,
+  wf_vals ipfix_header_layout [] h ->
+  get_field ipfix_header_layout h "length" = (16 + lenN (enc_isets s l ++ tail))%N ->
+  conformant_isets puf s l -> expect_isets s l = Some (xs, s') ->
+  u_s 2 tail = Ok id r1 -> u_s 2 r1 = Ok len r2 -> (ipfix_set_min_range <= id)%N ->
+  lookup id (ix_t s') = None -> lookup id (ix_o s') = None ->
+  parse_ipfix puf s (wire_bytes ipfix_header_layout h ++ (enc_isets s l ++ tail) ++ rest)
+  = (Ok {| ix_header := h; ix_sets := xs |} rest, s').
+Proof. exact decode_message_unknown. Qed.
+Print Assumptions C07_ipfix_message.
+
 From Coq Require Import Lia.
 
 (* non-vacuity, and the property at call level on concrete input: data for an id the parser has
